@@ -25,7 +25,17 @@ func init() { fw.Register("C13", c13) }
 //	forced == 0: automatic version must be MinVersion(n) (or refusal when none)
 //	forced  > 0: version must be exactly `forced` when n fits it, refusal otherwise
 func c13QROne(r *fw.Rec, mode qrref.Mode, l qrref.Level, n, forced int, viaWriter bool) bool {
+	return c13QROneCS(r, mode, l, n, forced, viaWriter, "")
+}
+
+// c13QROneCS: cs != "" adds a CHARACTER_SET hint to numeric / alphanumeric content.  Digits and
+// the 45-set do not depend on a character set, so the hint must not cost capacity: the lowest
+// version that holds the content is the same with and without it.
+func c13QROneCS(r *fw.Rec, mode qrref.Mode, l qrref.Level, n, forced int, viaWriter bool, cs string) bool {
 	text, _, charset := qrPayload(r.Rng, mode, n)
+	if cs != "" && (mode == qrref.Numeric || mode == qrref.Alphanumeric) {
+		charset = cs
+	}
 	hints := qrHints(forced, int(r.Rng.Intn(8)), charset)
 	want := qrref.MinVersion(n, mode, l)
 	fits := want != 0
@@ -33,7 +43,7 @@ func c13QROne(r *fw.Rec, mode qrref.Mode, l qrref.Level, n, forced int, viaWrite
 		fits = qrref.Capacity(forced, l, mode) >= n
 		want = forced
 	}
-	info := map[string]interface{}{"mode": qrModeName[mode], "level": qrLevelName[l], "length": n, "forced_version": forced, "expected_version": want, "fits": fits}
+	info := map[string]interface{}{"mode": qrModeName[mode], "level": qrLevelName[l], "length": n, "forced_version": forced, "expected_version": want, "fits": fits, "charset_hint": charset}
 	r.Evals(1)
 	got := 0
 	var err error
@@ -157,7 +167,7 @@ func c13DMWriter(r *fw.Rec, n, shape int, min, max *[2]int) bool {
 }
 
 func c13(c *fw.Ctx) {
-	c.Rule("QR: for every (mode, level, version) the lengths cap(v) and cap(v)+1 with automatic version, and forced versions v (exact), v-1 (refused) and v+1 (honoured); thorough: every length 1..cap(40)+1 for all 16 (mode, level) pairs; observed through Encoder_encode's version and through the writer's 0x0 output dimension; expected version from qrref capacities (ISO 18004 tables). Data Matrix: every codeword count 1..1559 x 3 shapes through SymbolInfo_Lookup and (as digit strings) through the writer's 0x0 output size, and (min, max) dimension pairs drawn from the 30 sizes (+-1), compared with dmref's Table 7 in capacity order; distinct = distinct (kind, mode/shape, level, length, hints)")
+	c.Rule("QR: for every (mode, level, version) the lengths cap(v) and cap(v)+1 with automatic version, and forced versions v (exact), v-1 (refused) and v+1 (honoured); the same boundaries for numeric / alphanumeric content under a CHARACTER_SET hint (which must not cost capacity); thorough: every length 1..cap(40)+1 for all 16 (mode, level) pairs; observed through Encoder_encode's version and through the writer's 0x0 output dimension; expected version from qrref capacities (ISO 18004 tables). Data Matrix: every codeword count 1..1559 x 3 shapes through SymbolInfo_Lookup and (as digit strings) through the writer's 0x0 output size, and (min, max) dimension pairs drawn from the 30 sizes (+-1), compared with dmref's Table 7 in capacity order; distinct = distinct (kind, mode/shape, level, length, hints)")
 	c.Assume("payloads select their mode unambiguously (digits / 45-set with a letter / UTF-8 with a lower-case letter / Shift_JIS double-byte with the Shift_JIS hint); the mask is forced to skip the penalty search")
 	// --- published figures
 	c.Run("published", func(r *fw.Rec) {
@@ -203,6 +213,13 @@ func c13(c *fw.Ctx) {
 					}
 					if ok && v > 1 {
 						ok = c13QROne(r, mode, l, 1+r.Rng.Intn(capv), v, viaWriter)
+					}
+					if ok && (mode == qrref.Numeric || mode == qrref.Alphanumeric) {
+						cs := []string{"UTF-8", "ISO-8859-1", "Shift_JIS", "windows-1252", "ASCII"}[(v+int(l))%5]
+						ok = c13QROneCS(r, mode, l, capv, 0, viaWriter, cs) && c13QROneCS(r, mode, l, capv+1, 0, false, cs) && c13QROneCS(r, mode, l, capv, v, false, cs)
+						if ok {
+							r.Tally("qr_hinted_non_byte_boundaries")
+						}
 					}
 					if ok {
 						r.Nontrivial(fmt.Sprintf("qr/%d/%d/%d", mode, l, v))
@@ -316,6 +333,7 @@ func c13(c *fw.Ctx) {
 	}
 	c.Exhaustive("Data Matrix (min, max) pairs over the 30 sizes: all 900")
 	c.Floor("qr_version_as_expected", 1500)
+	c.Floor("qr_hinted_non_byte_boundaries", 250)
 	c.Floor("qr_refused_as_expected", 300)
 	c.Floor("dm_lookup_symbol_as_expected", 3000)
 	c.Floor("dm_writer_symbol_as_expected", 300)
